@@ -70,6 +70,13 @@ def check_comparisons(failures):
         q2 = '* | json | %s as x | x < %s as lt | x == %s as eq | x > %s as gt | x <= %s as le | x >= %s as ge | x != %s as ne | fields lt, eq, gt, le, ge, ne' % ((expr,) + (other,) * 6)
         ok2, rows2, o2 = run_raw(q2, [crow])
         n += 1
+        if expr in ('m - one', 'm + (zero - one)', 'h * 2', 'h + h'):
+            # the true result lies in [-2^63 - 1024, -2^63): its double is -2^63, an integer in range - the row is refused
+            # rather than printed as a saturated i64::MIN (fix 9eb768d)
+            if not ok2 or rows2 or b'out of range' not in o2['err']:
+                failures.append({'kind': 'spec', 'what': 'the integer result of %s cannot be represented and its double would print as i64::MIN: expected an error for that row, got %r' % (expr, rows2),
+                                 'payload': {'query': q2, 'input_lines': [crow], 'stderr': o2['err'].decode('utf8', 'replace')[-300:]}})
+            continue
         if not ok2 or len(rows2) != 1:
             failures.append({'kind': 'spec', 'what': 'comparison of a computed boundary value did not run cleanly', 'payload': {'query': q2, 'input_lines': [crow], 'stderr': o2['err'].decode('utf8', 'replace')[-300:]}})
             continue
